@@ -32,6 +32,9 @@ def cases(seed, tier, broken=()):
                 c["use_coslat"] = c["weights"] = bool((r // 2) % 2 == 0) and bool(r % 3 != 2)
             if pair in ("pca_all", "mca_cpcca", "cca_cpcca", "rda_cpcca"):
                 c["variant"] = ["", "Complex", "Hilbert"][r % 3]
+            # every option of the PCA pre-reduction given explicitly and identically to both classes, on data with a flat spectrum (the number
+            # of PCs that survive a variance threshold then depends on each of them)
+            c["pca_opts"] = bool(pair in ("mca_cpcca", "cca_cpcca", "rda_cpcca") and r % 2 == 1)
     return out
 
 
@@ -84,7 +87,12 @@ def run(case):
     common = {"n_modes": k, "solver": "full", "standardize": std, "use_coslat": case["use_coslat"], "use_pca": case["use_pca"], "n_pca_modes": "all"}
     if var == "Hilbert":
         common["padding"] = "none"
-    cc = pair + ("|" + var if var else "")
+    if case.get("pca_opts"):
+        X = X + 3.0 * field(np.random.default_rng(case["mseed"] + 5), n, 3, 4, cplx_in).copy(data=np.random.default_rng(case["mseed"] + 6).normal(size=(n, 3, 4))).values
+        Y = Y + 3.0 * np.random.default_rng(case["mseed"] + 7).normal(size=(n, 3, 3))
+        common.update(use_pca=True, n_pca_modes=[0.9, 0.8][case["mseed"] % 2], pca_init_rank_reduction=1.0, random_state=1)
+        common["n_modes"] = min(k, 2)
+    cc = pair + ("|" + var if var else "") + ("|pca-options" if case.get("pca_opts") else "")
     checks = 1
     gc = bool(var)
 
